@@ -53,6 +53,32 @@ Theorem C16_polyt_moves_onto_retained_exon : forall exons k pos, Forall (fun e =
 Proof. exact shift_polyt_on_retained. Qed.
 Print Assumptions C16_polyt_moves_onto_retained_exon.
 
+(* ... and WHERE on it, in an implementation-independent form (PolyAProofs3.v): the new polyA position is the end of the last retained exon
+   plus the number of bases of the removed exons left of the old position; the new polyT position is the start of the first retained exon
+   minus the number of bases of the removed exons right of the old position.  The removed exons are listed outermost first; the outermost one
+   counts as continuing beyond the alignment (tail_dist_a / head_dist_t); clear_a / clear_t: the removed exons are well-formed and ordered and
+   the old position is not strictly inside an intron between two of them (where it names no read base). *)
+From IQ Require Import PolyAProofs3.
+Theorem C16_tail_position_spec :
+  (forall exons k pos, 0 < k < Z.of_nat (length exons) -> pos <> -1 ->
+     let removed := rev (skipn (length exons - Z.to_nat k) exons) in clear_a pos removed = true ->
+     shift_polya exons k pos = snd (last (drop_last k exons) (0,0)) + tail_dist_a pos removed) /\
+  (forall exons k pos, 0 < k < Z.of_nat (length exons) -> pos <> -1 ->
+     let removed := firstn (Z.to_nat k) exons in clear_t pos removed = true ->
+     shift_polyt exons k pos = fst (hd (0,0) (drop_first k exons)) - head_dist_t pos removed).
+Proof. split; [exact shift_polya_spec|exact shift_polyt_spec]. Qed.
+Print Assumptions C16_tail_position_spec.
+(* the decidable form of this clause that the add_polya_info correspondence evaluates on the IMPLEMENTATION's output (tail_spec: both recorded
+   positions of every side on which exons were removed) holds of the model for every exon list, positions and max_fake_terminal_exon_len *)
+Theorem C16_tail_position_spec_of_add_polya_info : forall max_fake exons p, tail_spec exons p (add_polya_info max_fake exons p) = true.
+Proof. exact tail_spec_model. Qed.
+Print Assumptions C16_tail_position_spec_of_add_polya_info.
+Example C16_tail_position_example :
+  shift_polya [(100,200);(300,400);(500,510);(600,640)] 2 603 = 414 /\ clear_a 603 [(600,640);(500,510)] = true /\
+  tail_dist_a 603 [(600,640);(500,510)] = 14 /\
+  shift_polyt [(100,130);(300,400);(500,600)] 1 125 = 295 /\ clear_t 125 [(100,130)] = true /\ head_dist_t 125 [(100,130)] = 5.
+Proof. vm_compute. repeat split; reflexivity. Qed.
+
 (* the code before the repair (PolyA.correct_read_info): the exon list could become empty; reached through the real finder too *)
 Example C16_unrepaired_code_refuted :
   correct_read_info 40 [(100,120);(200,230);(300,330)] (Some 90) (Some 115) = (3, 1) /\
